@@ -1,4 +1,5 @@
 import WfProofs.EventLogProps
+import WfProofs.EventLogWriters
 /-!
 # C16 — the stored event log is gap-free and resumable from any cursor
 
@@ -483,3 +484,76 @@ theorem C16_sse_resume (b : Backend) (acts : List Act) (hok : ∀ a ∈ acts, a.
 
 example : (apiStream false (-1) (run .mem C16_demo).log).map (frameId true) = [some 0, some 2, some 3] ∧
     (apiStream true 0 (run .sql C16_demo).log).map (frameId true) = [some 1, some 2, some 3] := by decide
+
+/-! ## several writers on one SQLite file, statement by statement
+
+`SqliteWorkflowStore` opens a connection per call and is shared by several processes /
+store objects on one `db_path`.  Model step = ONE statement sent to a connection
+(`WfModel/EventLogWriters.lean`); schedules are arbitrary `List WAct`: any number of
+writers start the program, execute their next statement (a write statement has no effect
+while another writer's transaction holds the write lock), or give up. -/
+
+/-- "whatever the statement-level interleaving of writers that all run `prog`, the
+committed rows of the run are numbered 0, 1, 2, … in commit order" -/
+def C16_writers_statement (prog : List Stmt) : Prop :=
+  ∀ acts : List WAct, (∀ a ∈ acts, a.runs prog = true) →
+    ∀ i (hi : i < (wrun acts).rows.length), (wrun acts).rows[i].seq = i
+
+/-- What `SqliteWorkflowStore.append_event` sends to its connection (regenerated from
+`/repo` on every run) is the single-statement form: one INSERT in which the database
+computes `COALESCE(MAX(sequence), -1) + 1`, then COMMIT. -/
+theorem C16_writers_program :
+    Gen.EventLog.sqlAppendStatements = [sqlInsertMax, "COMMIT"] ∧
+    appendProgram = [.insertMax, .commit] := by
+  constructor
+  · rfl
+  · decide +kernel
+
+/-- General form: as long as every program's INSERT computes the sequence number itself
+(no statement inserts a number read by an earlier statement), after every statement of
+every schedule the committed rows followed by the lock holder's uncommitted rows are
+numbered 0, 1, 2, …; without a lock holder nothing is uncommitted. -/
+theorem C16_writers_atomic_insert (acts : List WAct) (h : ∀ a ∈ acts, a.atomicSeq = true) :
+    (∀ i (hi : i < ((wrun acts).rows ++ (wrun acts).dirty).length),
+      ((wrun acts).rows ++ (wrun acts).dirty)[i].seq = i) ∧
+    ((wrun acts).lock = none → (wrun acts).dirty = []) :=
+  ⟨consec_seqs (winv_run acts h).consec, (winv_run acts h).clean⟩
+
+/-- The program the code runs keeps sequence numbers unique and gap-free in commit order
+under ANY statement-level interleaving of any number of writers. -/
+theorem C16_writers_consecutive : C16_writers_statement appendProgram := by
+  intro acts h
+  have hp : appendProgram.all Stmt.atomicSeq = true := by rw [C16_writers_program.2]; decide
+  have hi := winv_run acts (fun a ha => atomicSeq_of_runs hp (h a ha))
+  exact consec_seqs (consec_prefix hi.consec)
+
+/-- a schedule of two writers: both start, A inserts (takes the lock), B's INSERT has to
+wait, A commits, B inserts and commits -/
+def C16_writers_demo : List WAct :=
+  [.start 0 appendProgram 1 "Event" [], .start 1 appendProgram 2 "StopEvent" [], .exec 0, .exec 1, .exec 0, .exec 1, .exec 1]
+
+example : (∀ a ∈ C16_writers_demo, a.runs appendProgram = true) ∧
+    (wrun (C16_writers_demo.take 4)).lock = some 0 ∧ (wrun (C16_writers_demo.take 4)).dirty.map (·.tag) = [1] ∧
+    (wrun C16_writers_demo).rows.map (fun e => (e.seq, e.tag)) = [(0, 1), (1, 2)] := by
+  simp only [C16_writers_demo, C16_writers_program.2]
+  decide
+
+/-- two writers running read-then-insert: both read MAX, then each inserts what it read -/
+def C16_writers_collision : List WAct :=
+  [.start 0 readThenInsert 1 "Event" [], .exec 0, .exec 0, .exec 0,
+   .start 0 readThenInsert 2 "Event" [], .start 1 readThenInsert 3 "Event" [],
+   .exec 0, .exec 1, .exec 1, .exec 1, .exec 0, .exec 0]
+
+/-- Read-then-insert (`SELECT MAX(sequence)`, `+ 1` in Python, INSERT of that value) does NOT
+have the property: when another writer's INSERT and COMMIT land between the SELECT and the
+INSERT, two committed rows carry the same sequence number, and a client that saw the first
+of them (sequence 1) and resumes after 1 is never sent the second. -/
+theorem C16_writers_read_then_insert_collides :
+    ¬ C16_writers_statement readThenInsert ∧
+    (wrun C16_writers_collision).rows.map (fun e => (e.seq, e.tag)) = [(0, 1), (1, 3), (1, 2)] ∧
+    (stream 1 (wrun C16_writers_collision).rows) = [] := by
+  refine ⟨?_, by decide, by decide⟩
+  intro h
+  have := h C16_writers_collision (by decide) 2 (by decide)
+  revert this
+  decide
